@@ -305,12 +305,32 @@ struct Run{
     shp("switch"); shp((long)w*2+on);
   }
 
+  bool reini_same=false;
   void dispose(SimSolver* old,bool reini_first){
     if(reini_first){
-      // a moved-from solver may be re-initialised and used again; here it is re-initialised and then destroyed
-      int rc=lib_call([&]{ old->ini(2,2,1,0,1.5); });
+      // a moved-from solver may be re-initialised and used again: here it is re-initialised (to the sizes it had, or to a small problem), its
+      // fresh state is written and read back through the views, its clock is advanced, and then it is destroyed
+      unsigned n2=reini_same?nx:2,d2=reini_same?nsun:2,r2=reini_same?nrhos:1,s2=reini_same?nsc:0;
+      int rc=lib_call([&]{ old->ini(n2,d2,r2,s2,1.5); });
       if(rc!=CALL_OK) c.violation("C10","move:reini-threw","moved-from","re-initialising a moved-from solver threw \""+g_what+"\"");
-      else if(old->Get_t()!=1.5) c.violation("C10","clock:reini","moved-from","a re-initialised solver does not start at its initial time");
+      else if(old->Get_t()!=1.5||old->Get_t_initial()!=1.5) c.violation("C10","clock:reini","moved-from","a re-initialised solver does not start at its initial time");
+      else{
+        unsigned stride2=d2*d2*r2+s2; long bid; int ub; size_t off;
+        if(old->rho_dim(0,0)!=d2 || alloc_classify(old->rho_ptr(0,0),(size_t)stride2*n2*sizeof(double),&bid,&ub,&off)!=RANGE_LIB_BLOCK)
+          c.violation("C10","views:storage","moved-from","after re-initialising a moved-from solver its state does not lie in a live block of its own");
+        else{
+          bool same=true;
+          lib_call([&]{
+            for(unsigned ix=0;ix<n2;ix++){ for(unsigned ir=0;ir<r2;ir++){ double* q=old->rho_ptr(ix,ir); for(unsigned k=0;k<d2*d2;k++) q[k]=1.0+ix*100+ir*40+k; } for(unsigned is=0;is<s2;is++) old->scal_ptr(ix)[is]=-1.0-ix*10-is; }
+            for(unsigned ix=0;ix<n2;ix++){ for(unsigned ir=0;ir<r2;ir++){ const double* q=old->rho_ptr(ix,ir); for(unsigned k=0;k<d2*d2;k++) if(q[k]!=1.0+ix*100+ir*40+k) same=false; } for(unsigned is=0;is<s2;is++) if(old->scal_ptr(ix)[is]!=-1.0-ix*10-is) same=false; }
+            old->Set_AnyNumerics(false); SimSolver* keep=c.live; c.live=old; old->Evolve(0.25); c.live=keep;
+          });
+          if(!same) c.violation("C10","views:overlap","moved-from","the state views of a re-initialised moved-from solver overlap");
+          else if(old->Get_t()!=1.75) c.violation("C10","clock:reini","moved-from","a re-initialised moved-from solver does not advance its clock from its new initial time");
+          if(live->Get_t_initial()!=t_ini) c.violation("C10","clock:move","moved-from","re-initialising the moved-from solver changed the clock of the solver that received its contents");
+        }
+      }
+      c.ctr->add("probe_moved_from_reinitialised");
     }
     lib_call([&]{ delete old; });
   }
@@ -342,6 +362,7 @@ struct Run{
     }
     if(rc!=CALL_OK){ c.violation("C10","move:threw",assign?"assign":"ctor","moving the solver threw \""+g_what+"\""); return; }
     live=nw; c.live=nw;
+    reini_same=o["reini_same"].as_bool(false);
     dispose(old,o["reini_old"].as_bool(false));
     if(!c.out->ok) return;
     if(live->Get_t()!=t_before||live->Get_t_initial()!=t_ini){ c.violation("C10","clock:move",assign?"assign":"ctor","the clock changed when the solver was moved"); return; }
@@ -361,7 +382,9 @@ struct Run{
 
   void op_reini(const Json& o){
     begin("reini","C15");
-    const Json& cfg=o["cfg"];
+    Json cfgv=o["cfg"];
+    if(o["same"].as_bool(false)){ cfgv["nx"]=(int)nx; cfgv["nsun"]=(int)nsun; cfgv["nrhos"]=(int)nrhos; cfgv["nscalars"]=(int)nsc; c.ctr->add("probe_reini_same_layout"); }   // the same layout at another initial time
+    const Json& cfg=cfgv;
     configure(cfg,false);
     int rc=lib_call([&]{ live->ini(nx,nsun,nrhos,nsc,t_ini); });
     if(rc!=CALL_OK){ c.violation("C10","reini:threw","ini","ini threw \""+g_what+"\""); return; }
@@ -519,8 +542,18 @@ struct Run{
       // re-initialisation with an unsupported Hilbert dimension ends in the vector constructor's exception half way through ini();
       // nothing may leak or be touched out of bounds, and the object can be initialised properly afterwards
       unsigned bad=(kind=="ini_dim7")?7u:1u;
-      rc=lib_call([&]{ live->ini(nx,bad,nrhos,nsc,t_ini); });
+      unsigned nx2=nx+(unsigned)(o["grow"].as_int(0)%4);
+      rc=lib_call([&]{ live->ini(nx2,bad,nrhos,nsc,t_ini); });
       if(rc!=CALL_EXCEPTION) c.ctr->add("probe_bad_call_not_rejected");
+      else{
+        // between the failed call and the next successful ini() the object is still the user's: the grid can be set and read, and whatever
+        // the node arrays hold must not refer to storage that has been released
+        c.ctr->add("probe_use_after_failed_ini");
+        if(nx2>=2 && live->Get_nx()==nx2) lib_call([&]{ live->Set_xrange(1.0,2.0,"lin"); std::vector<double> g=live->Get_xrange(); (void)g; (void)live->Get_i(1.5); });
+        unsigned dd=live->rho_dim(0,0);
+        if(dd!=0){ long bid; int ub; size_t off;
+          if(alloc_classify(live->rho_ptr(0,0),(size_t)dd*dd*sizeof(double),&bid,&ub,&off)!=RANGE_LIB_BLOCK){ c.violation("C15","views:storage","failed-ini","after an ini() that ended in an exception node 0 still refers to components that do not lie in a live block"); return; } }
+      }
       Json cfg=Json::object(); cfg["nx"]=(int)nx; cfg["nsun"]=(int)nsun; cfg["nrhos"]=(int)nrhos; cfg["nscalars"]=(int)nsc; cfg["t0"]=t_ini; cfg["seed"]=(long long)opiseed(); cfg["grid"]="lin"; cfg["xa"]=1.0; cfg["xb"]=2.0;
       Json ro=Json::object(); ro["cfg"]=cfg; op_reini(ro); return;
     }
@@ -617,9 +650,9 @@ struct SolverEngine: Engine{
         int k=(int)r.weighted({22,55,6,7,10});
         if(k==0){ double dt=dtgen()*(r.chance(0.2)?50:1); if(mask) dt=std::min(dt,1.0); ops.push(gen_stepper(r,dt,L)); evolve(dt); }
         else if(k==1) ops.push(gen_expect(r,true));
-        else if(k==2){ Json o=Json::object(); o["op"]="reini"; o["cfg"]=gen_cfg(r,true); ops.push(o); }
+        else if(k==2){ Json o=Json::object(); o["op"]="reini"; o["cfg"]=gen_cfg(r,true); o["same"]=r.chance(0.4); ops.push(o); }
         else if(k==3){ Json o=Json::object(); o["op"]="second_solver"; o["d"]=(int)r.below(5); o["avg"]=r.chance(0.3); o["vs"]=(long long)r.below(100000); ops.push(o); }
-        else{ Json o=Json::object(); o["op"]=r.chance(0.5)?"move_ctor":"move_assign"; o["fresh"]=r.chance(0.5); o["evolve_target"]=r.chance(0.3); o["reini_old"]=r.chance(0.3); o["n"]=(int)r.below(3); o["d"]=(int)r.below(5); o["s"]=(int)r.below(2); ops.push(o); }
+        else{ Json o=Json::object(); o["op"]=r.chance(0.5)?"move_ctor":"move_assign"; o["fresh"]=r.chance(0.5); o["evolve_target"]=r.chance(0.3); o["reini_old"]=r.chance(0.3); o["reini_same"]=r.chance(0.5); o["n"]=(int)r.below(3); o["d"]=(int)r.below(5); o["s"]=(int)r.below(2); ops.push(o); }
       }
     }else{ // C10 and C15: sequences
       int n=r.range(2,8);
@@ -632,14 +665,14 @@ struct SolverEngine: Engine{
         if(k==0){ double dt=dtgen(); if(i==0||r.chance(0.35)) ops.push(gen_stepper(r,dt,L)); evolve(dt); }
         else if(k==1){ Json o=Json::object(); o["op"]="switch"; o["which"]=(int)r.below(5); o["on"]=r.chance(0.5); ops.push(o); }
         else if(k==2){ ops.push(gen_stepper(r,1.0,L)); }
-        else if(k==3||k==4){ Json o=Json::object(); o["op"]=k==3?"move_ctor":"move_assign"; o["fresh"]=r.chance(0.5); o["evolve_target"]=r.chance(0.35); o["reini_old"]=r.chance(0.4); o["n"]=(int)r.below(3); o["d"]=(int)r.below(5); o["s"]=(int)r.below(2); ops.push(o); }
-        else if(k==5){ Json o=Json::object(); o["op"]="reini"; o["cfg"]=gen_cfg(r,false); ops.push(o); }
+        else if(k==3||k==4){ Json o=Json::object(); o["op"]=k==3?"move_ctor":"move_assign"; o["fresh"]=r.chance(0.5); o["evolve_target"]=r.chance(0.35); o["reini_old"]=r.chance(0.4); o["reini_same"]=r.chance(0.5); o["n"]=(int)r.below(3); o["d"]=(int)r.below(5); o["s"]=(int)r.below(2); ops.push(o); }
+        else if(k==5){ Json o=Json::object(); o["op"]="reini"; o["cfg"]=gen_cfg(r,false); o["same"]=r.chance(0.4); ops.push(o); }
         else if(k==6) ops.push(gen_expect(r,prop=="C15"));
         else if(k==7){ Json o=Json::object(); o["op"]="second_solver"; o["d"]=(int)r.below(5); o["avg"]=r.chance(0.3); o["vs"]=(long long)r.below(100000); ops.push(o); }
         else if(k==10){ Json o=Json::object(); o["op"]="limits"; o["hmin"]=(int)r.below(4); o["hmax"]=(int)r.below(3); ops.push(o); if(r.chance(0.6)){ evolve(r.chance(0.5)?r.uniform(1e-5,5e-3):dtgen()); } }
         else if(k==11){ Json o=Json::object(); o["op"]="any_numerics"; o["on"]=r.chance(0.4); ops.push(o); evolve(dtgen()); }
         else if(k==9){ Json o=Json::object(); o["op"]="evolve_fail"; o["at"]=(int)r.below(4); o["adaptive"]=r.chance(0.6); o["vs"]=(long long)r.below(100000); ops.push(o); }
-        else{ Json o=Json::object(); o["op"]="bad_call"; static const char* bk[]={"xrange_size","xrange_unsorted","xrange_scale","xrange_log0","get_i","ini_dim7","ini_dim1"}; o["kind"]=bk[r.below(7)]; o["above"]=r.chance(0.5); ops.push(o); }
+        else{ Json o=Json::object(); o["op"]="bad_call"; static const char* bk[]={"xrange_size","xrange_unsorted","xrange_scale","xrange_log0","get_i","ini_dim7","ini_dim1"}; o["kind"]=bk[r.below(7)]; o["above"]=r.chance(0.5); o["grow"]=(int)r.below(4); ops.push(o); }
       }
     }
     p["ops"]=ops;
